@@ -32,6 +32,7 @@ func ProfileFor(prop string) *Profile {
 		w["idxtype"], w["bad"], w["clear"], w["idxcreate"], w["idxdrop"] = 0.2, 0.2, 0.4, 0.3, 0.1
 	case "C03":
 		p.MinIdx, p.MaxIdx = 1, 3
+		p.MistypedAttrs = true
 		w["put"], w["update"], w["delete"], w["get"] = 4, 5, 3, 0.5
 		w["query"], w["scan"], w["describe"] = 1, 1, 0.5
 		w["clear"], w["idxcreate"], w["idxdrop"] = 0.5, 0.6, 0.3
@@ -111,6 +112,14 @@ func ProfileFor(prop string) *Profile {
 		w["batchbad"], w["idxtype"], w["batchpartial"] = 0.3, 0.1, 0.4
 	default:
 		return nil
+	}
+	if Tier == "thorough" {
+		// deeper bounds: longer histories, one more table, more keys per table
+		p.MaxSteps = p.MaxSteps * 8 / 5
+		if p.MaxTables < 3 {
+			p.MaxTables++
+		}
+		p.BigUniverse = true
 	}
 	return p
 }
